@@ -311,6 +311,11 @@ void readLP(int sel, std::string text, bool extMps, bool gz)
    else if(text[0] == '*' || text[0] == 'N') vfz::completeMps(text);
    bool parsedAsMps = !text.empty() && (text[0] == '*' || text[0] == 'N');
    if(rational && excludedRational(text, parsedAsMps)) return;
+   if(!parsedAsMps && vfz::known("lpf-keyword-bracket-overread") && vfz::hasClosingBracket(text))
+   {
+      vfz::count("excluded_known.lpf-keyword-bracket-overread");
+      return;
+   }
    if(!parsedAsMps && noNames && vfz::known("lpf-noname-leak"))
    {
       noNames = false;
